@@ -3,8 +3,9 @@
 copies patch.diff, demo.py, notes.txt into seeded/<Cxx>/<k>/ and writes meta.json"""
 import json, os, shutil, sys
 pid, src, k, needs, caught, ran = sys.argv[1:7]
+dstk = sys.argv[7] if len(sys.argv) > 7 else k
 V = os.path.dirname(os.path.dirname(os.path.abspath(__file__)))
-dst = os.path.join(V, "seeded", pid, k)
+dst = os.path.join(V, "seeded", pid, dstk)
 os.makedirs(dst, exist_ok=True)
 for f in ("patch.diff", "demo.py", "notes.txt"):
     shutil.copy(os.path.join(src, k, f), os.path.join(dst, f))
